@@ -304,3 +304,114 @@ Proof.
   eapply U_element; [cbn; right; left; reflexivity|reflexivity|right; left; reflexivity|].
   eapply U_here; [right; left; reflexivity|reflexivity].
 Qed.
+
+(* ---------------- exact duplicate member names ---------------- *)
+(* [HasDup d]: some object of the tree d — d itself, a member value or a list element, recursively — has two
+   members with the same name *)
+Inductive HasDup : doc -> Prop :=
+| HD_here f pre k v1 mid v2 post :
+    f = (pre ++ (k, v1) :: mid ++ (k, v2) :: post)%list -> HasDup (DObj f)
+| HD_member f k v : In (k, v) f -> HasDup v -> HasDup (DObj f)
+| HD_element l x : In x l -> HasDup x -> HasDup (DArr l).
+
+Lemma existsb_eqb_in x l : existsb (String.eqb x) l = true <-> In x l.
+Proof.
+  rewrite existsb_exists. split.
+  - intros (y & Hy & E). apply String.eqb_eq in E. subst. exact Hy.
+  - intro H. exists x. split; [exact H|apply String.eqb_refl].
+Qed.
+
+Lemma dup_names_iff l :
+  dup_names l = true <-> exists pre k mid post, l = (pre ++ k :: mid ++ k :: post)%list.
+Proof.
+  induction l as [|x r IH]; cbn [dup_names].
+  - split; [discriminate|]. intros (pre & k & mid & post & E). destruct pre; discriminate.
+  - rewrite orb_true_iff, existsb_eqb_in, IH. split.
+    + intros [H|(pre & k & mid & post & E)].
+      * apply in_split in H as (mid & post & E). exists [], x, mid, post. rewrite E. reflexivity.
+      * exists (x :: pre), k, mid, post. rewrite E. reflexivity.
+    + intros (pre & k & mid & post & E). destruct pre as [|y pre]; cbn in E; inversion E; subst.
+      * left. apply in_or_app. right. left. reflexivity.
+      * right. exists pre, k, mid, post. reflexivity.
+Qed.
+
+Lemma map_fst_split (f : list (string * doc)) pre k mid post :
+  map fst f = (pre ++ k :: mid ++ k :: post)%list ->
+  exists pre' v1 mid' v2 post', f = (pre' ++ (k, v1) :: mid' ++ (k, v2) :: post')%list.
+Proof.
+  intro E. apply map_eq_app in E as (pre' & r1 & -> & _ & E).
+  destruct r1 as [|[k1 v1] r1]; [discriminate|]. cbn in E. injection E as Ek E'. subst k1.
+  apply map_eq_app in E' as (mid' & r2 & -> & _ & E').
+  destruct r2 as [|[k2 v2] r2]; [discriminate|]. cbn in E'. injection E' as Ek2 _. subst k2.
+  exists pre', v1, mid', v2, r2. reflexivity.
+Qed.
+
+Definition go_arr := fix go (l : list doc) : bool := match l with [] => false | x :: r => has_dup x || go r end.
+Definition go_obj := fix go (f : list (string * doc)) : bool := match f with [] => false | (_, x) :: r => has_dup x || go r end.
+
+Lemma has_dup_arr l : has_dup (DArr l) = go_arr l.
+Proof. reflexivity. Qed.
+Lemma has_dup_obj f : has_dup (DObj f) = dup_names (map fst f) || go_obj f.
+Proof. reflexivity. Qed.
+
+Lemma go_arr_iff l : go_arr l = true <-> exists x, In x l /\ has_dup x = true.
+Proof.
+  induction l as [|y r IH]; cbn [go_arr].
+  - split; [discriminate|intros (x & [] & _)].
+  - fold go_arr. rewrite orb_true_iff, IH. split.
+    + intros [H|(x & Hx & H)]; [exists y; split; [left; reflexivity|exact H]|exists x; split; [right; exact Hx|exact H]].
+    + intros (x & [->|Hx] & H); [left; exact H|right; exists x; split; assumption].
+Qed.
+Lemma go_obj_iff f : go_obj f = true <-> exists k x, In (k, x) f /\ has_dup x = true.
+Proof.
+  induction f as [|[k0 y] r IH]; cbn [go_obj].
+  - split; [discriminate|intros (k & x & [] & _)].
+  - fold go_obj. rewrite orb_true_iff, IH. split.
+    + intros [H|(k & x & Hx & H)]; [exists k0, y; split; [left; reflexivity|exact H]|exists k, x; split; [right; exact Hx|exact H]].
+    + intros (k & x & [E|Hx] & H); [inversion E; subst; left; exact H|right; exists k, x; split; assumption].
+Qed.
+
+(* size of a tree, for the induction over nested lists *)
+Fixpoint dsize (d : doc) : nat :=
+  match d with
+  | DArr l => S ((fix go (l : list doc) : nat := match l with [] => 0 | x :: r => dsize x + go r end) l)
+  | DObj f => S ((fix go (f : list (string * doc)) : nat := match f with [] => 0 | (_, x) :: r => dsize x + go r end) f)
+  | _ => 1
+  end.
+Lemma dsize_elem l x : In x l -> dsize x < dsize (DArr l).
+Proof.
+  cbn [dsize]. induction l as [|y r IH]; [intros []|]. intros [->|H]; [lia|]. specialize (IH H). lia.
+Qed.
+Lemma dsize_member f k x : In (k, x) f -> dsize x < dsize (DObj f).
+Proof.
+  cbn [dsize]. induction f as [|[k0 y] r IH]; [intros []|]. intros [E|H]; [inversion E; subst; lia|]. specialize (IH H). lia.
+Qed.
+
+Theorem has_dup_iff d : has_dup d = true <-> HasDup d.
+Proof.
+  split.
+  - remember (dsize d) as n eqn:En. revert d En. induction n as [n IH] using lt_wf_ind. intros d En H.
+    destruct d as [| | | | |l|f]; try discriminate.
+    + rewrite has_dup_arr in H. apply go_arr_iff in H as (x & Hx & H).
+      apply (HD_element l x Hx). apply (IH (dsize x)); [subst n; apply dsize_elem; exact Hx|reflexivity|exact H].
+    + rewrite has_dup_obj in H. apply orb_true_iff in H as [H|H].
+      * apply dup_names_iff in H as (pre & k & mid & post & E).
+        apply map_fst_split in E as (pre' & v1 & mid' & v2 & post' & E). exact (HD_here _ _ _ _ _ _ _ E).
+      * apply go_obj_iff in H as (k & x & Hx & H). apply (HD_member f k x Hx).
+        apply (IH (dsize x)); [subst n; apply (dsize_member f k); exact Hx|reflexivity|exact H].
+  - induction 1 as [f pre k v1 mid v2 post E|f k v Hin _ IH|l x Hin _ IH].
+    + rewrite has_dup_obj. apply orb_true_iff. left. apply dup_names_iff.
+      exists (map fst pre), k, (map fst mid), (map fst post). subst f. rewrite map_app. cbn [map fst]. rewrite map_app. reflexivity.
+    + rewrite has_dup_obj. apply orb_true_iff. right. apply go_obj_iff. exists k, v. split; assumption.
+    + rewrite has_dup_arr. apply go_arr_iff. exists x. split; assumption.
+Qed.
+
+(* a document with a duplicate member name is refused before any typed decoding *)
+Theorem duplicate_key_undecodable d : HasDup d -> strict_of_doc d = Err.
+Proof. intro H. apply has_dup_iff in H. unfold strict_of_doc. rewrite H. reflexivity. Qed.
+Theorem strict_without_dup d : ~ HasDup d -> strict_of_doc d = spec_of_doc d.
+Proof.
+  intro H. unfold strict_of_doc. destruct (has_dup d) eqn:E; [|reflexivity]. exfalso. apply H, has_dup_iff, E.
+Qed.
+Theorem strict_of_doc_total d : strict_of_doc d <> Panic.
+Proof. unfold strict_of_doc. destruct (has_dup d); [discriminate|apply spec_of_doc_total]. Qed.
